@@ -3,7 +3,8 @@
 M1 both inputs unchanged (Mod = empty)        M2 the result shares no memory with the inputs (fresh copies; group names in the result's own list)
 M3 cpy_file_entry copies every field          M4 every write to the output array stays inside it (charging argument)
 M5 no index E-k with unsigned E unless E >= k is established        M6 on a key match the override's value wins
-M7 a key defined on both sides is not inserted a second time (exactly one visible value per key)"""
+M7 a key defined on both sides is not inserted a second time (exactly one visible value per key)
+M8 the scan for an existing key covers the whole result   M9 every merge helper runs for every pair   M10 group-less override-only keys go first"""
 import re
 
 from sa.ast import render
@@ -257,6 +258,70 @@ def run(prog, ctx):
         else:
             ctx.ok("M7", "%s: a key defined on both sides is not inserted again" % h.name, st.where,
                    "from the key-equality edge the insertion is unreachable in that iteration (flag reasoning on the path)")
+    # ---- M8 the duplicate/position scan looks at the whole result ------------------------------------------------
+    for h, st, l, inner in charges.get("override", []):
+        cfg = h.cfg
+        scans = [x for x in inner.child("body").walk() if x.k == "ForStmt" and any(
+            c2.k == "CallExpr" and c2.j.get("callee") == "strcmp" and all(".key" in render(a2) for a2 in c2.call_args()) for c2 in x.walk())]
+        if len(scans) != 1:
+            ctx.inconclusive("M8", "%s: the scan for an existing key covers the whole result" % h.name, st.where, "%d scan loops" % len(scans))
+            continue
+        sc = scans[0]
+        sh2 = loops.for_shape(sc)
+        counters = [x for x in inner.child("body").walk() if x.k == "UnaryOperator" and x.j.get("op") == "++" and not x.within(sc)]
+        C = render(counters[0].children[0]) if counters else None
+        early = [x for x in sc.child("body").walk() if x.k in ("BreakStmt", "GotoStmt", "ReturnStmt")]
+        bad_exit = None
+        for x in early:
+            # tolerated: the exit taken when the key itself was found
+            okx, cutx = cfg.all_paths_cut(cfg.block_of(x), lambda lit, b3, i3: lit is not None and lit.kind == "truth" and not lit.pol and lit.node.k == "CallExpr"
+                                          and lit.node.j.get("callee") == "strcmp" and all(".key" in render(a2) for a2 in lit.node.call_args()), start=cfg.loop_header(sc))
+            if not (okx and cutx):
+                bad_exit = x
+        if not (loops.covers_range(sh2, 0, C)):
+            ctx.fail("M8", "%s: the scan for an existing key covers the whole result" % h.name, sc.where, "scan loop is %s, result length is %s" % (sh2.describe(), C),
+                     key="scan-range:%s" % h.name)
+        elif bad_exit is not None:
+            ctx.fail("M8", "%s: the scan for an existing key covers the whole result" % h.name, bad_exit.where,
+                     "the scan is left early without having found the key (e.g. at the end of the first run of the section): when the base opens that "
+                     "section again later, a key defined there is not seen and is inserted a second time", key="scan-early-exit:%s" % h.name)
+        else:
+            ctx.ok("M8", "%s: the scan for an existing key covers the whole result" % h.name, sc.where, "%s; left early only on a key match" % sh2.describe())
+        # ---- M10 group-less override-only keys go to the front --------------------------------------------------------
+        idxv = l.children[1].strip()
+        if idxv.k == "DeclRefExpr":
+            v = idxv.j["name"]
+            defs = [(lhs2, rhs2, st2) for lhs2, rhs2, st2 in h.assignments() if (lhs2["name"] if isinstance(lhs2, dict) else render(lhs2)) == v]
+            front = False
+            for lhs2, rhs2, st2 in defs:
+                r2 = rhs2.strip()
+                if r2.k == "ConditionalOperator" and MARKER in render(r2.child("cond")) and "strcmp" in render(r2.child("cond")) and \
+                        r2.child("else").const_value() == 0:
+                    front = True
+                elif rhs2.const_value() == 0 and not isinstance(lhs2, dict):
+                    okf, cutf = cfg.all_paths_cut(cfg.block_of(st2), lambda lit, b3, i3: lit is not None and MARKER in lit.atom and not lit.pol and lit.node.k == "CallExpr",
+                                                  start=cfg.loop_header(inner))
+                    if okf and cutf:
+                        front = True
+            if front:
+                ctx.ok("M10", "%s: group-less keys only the override has are placed first" % h.name, st.where,
+                       "the insertion index is 0 when the entry's group is the group-less marker and the result has no group-less key yet")
+            else:
+                ctx.fail("M10", "%s: group-less keys only the override has are placed first" % h.name, st.where,
+                         "no definition of `%s` sends a group-less entry to the front: it is appended behind the last section, and a written copy of the "
+                         "result reads it back as a member of that section" % v, key="groupless-front:%s" % h.name)
+    # ---- M9 every helper runs for every pair (also for an empty base or override) ---------------------------------
+    mcfg = m.cfg
+    succ_rets = [r2 for r2 in m.returns() if query.returned_constant(r2) in ("ECONF_SUCCESS", 0)]
+    for h, call in helpers:
+        cb = mcfg.block_of(call)
+        skipped = [r2 for r2 in succ_rets if mcfg.block_of(r2) in mcfg.reachable(mcfg.block_of(cap), avoid_blocks=[cb])]
+        if skipped:
+            ctx.fail("M9", "%s runs for every pair of inputs" % h.name, call.where,
+                     "the call is conditional: a path from the allocation of the result to the successful return skips it (e.g. for an empty base), "
+                     "and the entries it would have contributed are missing", key="helper-conditional:%s" % h.name)
+        else:
+            ctx.ok("M9", "%s runs for every pair of inputs" % h.name, call.where, "on every path from the allocation to ECONF_SUCCESS")
     # ---- M2 / M3 / M6 ---------------------------------------------------------------------------------------------
     cp = prog.fn("cpy_file_entry")
     ctx.touch(cp)
